@@ -176,3 +176,9 @@ Example C19_example_session :
   a_fatal (fst (a_run cfg s1 tr)) = None /\
   a_fatal (fst (a_run cfg s1 (tr ++ [ADeadline 1700]))) = Some ETimeout.
 Proof. vm_compute. repeat split; reflexivity. Qed.
+
+(* ---- HEARTBEAT_IVL / HEARTBEAT_TIMEOUT as the application sets them (option layer, Model/Options.v) ---- *)
+From RZ Require Import Model.Options Proofs.OptionsProofs.
+(* 0 switches heartbeating off, v > 0 is v ms, negatives and wrong lengths are refused under the option's id *)
+Theorem C19_heartbeat_option_semantics : forall (o : opts) (b : bytes), (match apply_opt o HEARTBEAT_IVL b with | inl o' => exists v, i32_of b = Some v /\ 0 <= v /\ heartbeat_ivl_of o' = ivl_decode v /\ (forall g, g <> F_heartbeat_ivl -> o' g = o g) | inr e => e = EVal HEARTBEAT_IVL /\ (i32_of b = None \/ exists v, i32_of b = Some v /\ v < 0) end)%Z /\ (match apply_opt o HEARTBEAT_TIMEOUT b with | inl o' => exists v, i32_of b = Some v /\ 0 <= v /\ heartbeat_timeout_of o' = ivl_decode v /\ (forall g, g <> F_heartbeat_timeout -> o' g = o g) | inr e => e = EVal HEARTBEAT_TIMEOUT /\ (i32_of b = None \/ exists v, i32_of b = Some v /\ v < 0) end)%Z.
+Proof. exact heartbeat_semantics. Qed.
